@@ -134,6 +134,7 @@ fn shape_fields(name: &str) -> Vec<(&'static str, bool)> {
         "Q5" => Q5Ops::fields(),
         "W20" => W20Ops::fields(),
         "W72" => W72Ops::fields(),
+        "N5" => N5Ops::fields(),
         _ => R4Ops::fields(),
     }
 }
@@ -750,18 +751,18 @@ fn gen_tlw(r: &mut Rng, n: usize, out: &mut dyn Write) {
 }
 
 fn gen_tl(r: &mut Rng, n: usize, out: &mut dyn Write) {
-    for s in ["S8", "Q5", "R4", "W20", "W72"] {
+    for s in ["S8", "Q5", "R4", "W20", "W72", "N5"] {
         writeln!(out, "{}", shape_line(s)).unwrap();
     }
     for i in 0..n {
-        let shape = if r.chance(1, 40) { "W72" } else if r.chance(1, 14) { "W20" } else { match r.below(10) { 0..=6 => "S8", 7 | 8 => "Q5", _ => "R4" } };
+        let shape = if r.chance(1, 12) { "N5" } else if r.chance(1, 40) { "W72" } else if r.chance(1, 14) { "W20" } else { match r.below(10) { 0..=6 => "S8", 7 | 8 => "Q5", _ => "R4" } };
         let exact = i % 2 == 0;
         let tame = r.chance(3, 4);
         let tl = gen_timeline(r, shape, exact, tame);
         let fields = shape_fields(shape);
         let anim_idx: Vec<usize> = fields.iter().enumerate().filter(|(_, f)| f.1).map(|(i, _)| i).collect();
         writeln!(out, "reset").unwrap();
-        for s in ["S8", "Q5", "R4", "W20", "W72"] {
+        for s in ["S8", "Q5", "R4", "W20", "W72", "N5"] {
             writeln!(out, "{}", shape_line(s)).unwrap();
         }
         if exact { writeln!(out, "# exactcfg").unwrap(); }
@@ -961,6 +962,9 @@ fn gen_tl(r: &mut Rng, n: usize, out: &mut dyn Write) {
                     let target = vals_line(r, shape, tame);
                     writeln!(out, "upd 0 {} {}", b(t), target.join(" ")).unwrap();
                     writeln!(out, "# expect C02 1 {}", exp.join(" ")).unwrap();
+                    // the same on the shapes that only exist to exercise the derive (field names, width): the derived timeline of
+                    // *this* struct reaches its keyframes (C17)
+                    if shape == "N5" || shape == "W72" || shape == "W20" { writeln!(out, "# expect C17 2 {}", exp.join(" ")).unwrap(); }
                 }
             }
             // at and after the end: terminal value held
@@ -1099,6 +1103,9 @@ fn gen_merged(r: &mut Rng, n: usize, out: &mut dyn Write) {
         let mut times: Vec<f32> = vec![0.0];
         for tl in &comps { let mut ts = times_for(r, tl, 1); r.shuffle(&mut ts); times.extend(ts.into_iter().take(10)); }
         for _ in 0..4 { times.push(r.unit_f32() * 8.0); }
+        // a merge has no say of its own about the time it is handed — negative times go to the components as they are
+        // (NaN and ±inf are left out: the model is not validated at non-finite times, where the code's comparison order decides — DESIGN §0.6, S12-C12)
+        if r.chance(1, 3) { times.push(r.pick(&[-1.0f32, -0.5, -1e9])); }
         for t in times {
             let target = vals_line(r, shape, true);
             writeln!(out, "upd 0 {} {}", b(t), target.join(" ")).unwrap();
@@ -1220,6 +1227,13 @@ fn gen_anim(r: &mut Rng, n: usize, out: &mut dyn Write) {
                 }
             }
         }
+        // one history in five ends with a negative step: time does not run backwards — the call is rejected (it panics, as
+        // documented for `Duration::from_secs_f32`) and nothing it could have undone (an animation that had ended) is undone
+        if r.chance(1, 5) {
+            if let Some(Some(tl)) = tls.get(cur) { if let Some(c) = tl.cycles() { let total = tl.delay_v() + tl.dur_v() * c as f32; if total < 1e6 { writeln!(out, "adv 0 {}", b(total + 1.0)).unwrap(); } } }
+            writeln!(out, "adv 0 {}", b(-r.pick(&[0.25f32, 1.0, 2.0, 1e-3, 64.0]))).unwrap();
+            writeln!(out, "adv 0 {}", b(0.25)).unwrap();
+        }
         // one block in twenty-five ends with a very long run of transitions between *animated* states after a pause
         // (254…258 or 511…513 entries, around the wrap-around points of 8- and 9-bit counters), then returns to the
         // paused state: anything that counts blends / transitions in a narrow integer shows up only here
@@ -1266,6 +1280,22 @@ fn gen_anim(r: &mut Rng, n: usize, out: &mut dyn Write) {
 /// every exact keyframe time must show exactly that keyframe's values (C02), the end must hold the last keyframe, and
 /// no time may panic or overflow (C20: judged on every op).
 fn gen_big(r: &mut Rng, n: usize, out: &mut dyn Write) {
+    // a user-made cubic Bézier easing (`CubicBezierEasing::new`, the custom easing c3) at times within an ulp or two of every
+    // phase boundary, and at the smallest positive times: valid configuration, valid time — it returns, finite
+    {
+        writeln!(out, "reset").unwrap();
+        writeln!(out, "{}", shape_line("R4")).unwrap();
+        for (dur, delay) in [(2.0f32, 0.0f32), (1.0, 0.5), (0.75, 0.0)] {
+            writeln!(out, "tl 10 R4 {} {} 1 0 c3 3 {} - {} 0 0 {} - {} 100 1000 {} - {} -100 0", b(dur), b(delay), b(0.0), b(0.0), b(0.5), b(50.0), b(1.0), b(-25.0)).unwrap();
+            let target = vals_line(r, "R4", true).join(" ");
+            let mut ts = vec![f32::MIN_POSITIVE, 1e-20, 1e-9, 1e-7];
+            for c in [0.0f32, 0.5, 1.0, 1.5, 2.0] { for k in [-2i32, -1, 1, 2] { ts.push(nudge(delay + dur * c, k)); } }
+            for t in ts {
+                writeln!(out, "upd 10 {} {}", b(delay + t.max(0.0) - if t > 1e-6 { delay } else { 0.0 }), target).unwrap();
+                writeln!(out, "# nopanic C20 1 0").unwrap();
+            }
+        }
+    }
     for case in 0..n {
         writeln!(out, "reset").unwrap();
         let shape = if r.chance(1, 2) { "Q5" } else { "R4" };
